@@ -103,14 +103,15 @@ def build(G, srname, names="str", pre=None, late=0):
 
 
 CFG_PRE = ("agenda", "treesum", "naive", "trim", "cotrim", "cnf", "prefix_grammar", "rhs", "call", "nullaryremove",
-           "unaryremove", "unarycycleremove", "derivative", "materialize", "renumber", "binarize", "agenda_maxiter")
+           "unaryremove", "unarycycleremove", "derivative", "materialize", "renumber", "binarize", "agenda_maxiter",
+           "treesum_maxiter")
 
 
 def safe_pre(srn, shape):
     """Preludes that terminate: total-weight evaluations only where the total weight is finite."""
     if srn in ("Sat3", "Sat2", "Bool") or shape == "acyclic":
         return CFG_PRE
-    return tuple(x for x in CFG_PRE if x not in ("agenda", "treesum", "naive", "agenda_maxiter"))
+    return tuple(x for x in CFG_PRE if x not in ("agenda", "treesum", "naive", "agenda_maxiter", "treesum_maxiter"))
 
 
 def warm_cfg(g, pre):
@@ -123,6 +124,8 @@ def warm_cfg(g, pre):
             g.agenda(maxiter=2)
         elif name == "treesum":
             g.treesum()
+        elif name == "treesum_maxiter":
+            g.treesum(maxiter=2)
         elif name == "naive":
             g.naive_bottom_up()
         elif name == "call":
@@ -239,7 +242,7 @@ def f_prefixgrammar(a):
 
 
 def f_derivative(a):
-    g = build(a["G"], a["sr"], a.get("names", "str"), a.get("pre"), a.get("late", 0))
+    g = build(a["G"], a["sr"], a.get("names", "str"), a.get("prelude"), a.get("late", 0))   # here "pre" is the token prefix
     pre = ustr(a["pre"])
     d = g
     for x in pre:
@@ -293,6 +296,11 @@ def f_transform(a):
 def f_treesum(a):
     g = build(a["G"], a["sr"], a.get("names", "str"), a.get("pre"), a.get("late", 0))
     how = a["how"]
+    if how == "treesum":
+        v = g.treesum()
+        if a.get("twice"):
+            v = g.treesum()
+        return {"op": "treesum1", "sr": srmodel(a["sr"]), "G": a["G"], "res": enc_w(g.R, coerce(g.R, v))}
     if how == "agenda" and "popscript" in a:
         # a pop order of the agenda, forced through the choosing chart (vchart.py)
         import vchart
